@@ -1,0 +1,112 @@
+//go:build verif
+
+package tree
+
+// Read-only exports for the verification harness (build tag `verif` only). Nothing here writes to a
+// tree; with the tag off this file is not compiled.
+
+// VerifBranchFactor, VerifMaxKVs and VerifMinKVs are the occupancy constants of the B-tree.
+const (
+	VerifBranchFactor = branchFactor
+	VerifMaxKVs       = maxKVs
+	VerifMinKVs       = minKVs
+)
+
+// VerifNode is one node as seen by a pre-order walk from the root.
+type VerifNode[K any, V any] struct {
+	// Ref is the node object itself (opaque; comparable with ==), i.e. the node's identity.
+	Ref any
+	// ID is the pre-order (first-visit) number of the node in this walk; the root is 0.
+	ID int
+	// N is the node's occupancy field.
+	N int
+	// Keys and Values are copies of ALL raw slots (len maxKVs), including the ones at index >= N.
+	Keys   []K
+	Values []V
+	// Children holds, for ALL raw child slots (len branchFactor), the ID of the child, -1 for nil and
+	// -2 for a pointer to a node that was already visited (sharing or a cycle; not descended again).
+	Children []int
+	// Parent is the ID of the node the parent pointer refers to, -1 for nil and -2 if it refers to
+	// an object that is not part of this walk.
+	Parent int
+	// Depth is the number of edges from the root.
+	Depth int
+}
+
+// VerifShape is the result of a shape walk.
+type VerifShape[K any, V any] struct {
+	Nodes []VerifNode[K, V]
+	Size  int
+	Gen   int
+	// Truncated is set if the walk was cut off after VerifMaxNodes nodes.
+	Truncated bool
+}
+
+// VerifMaxNodes bounds a shape walk (a corrupted structure must not hang the harness).
+const VerifMaxNodes = 1 << 22
+
+func verifShape[K any, V any](t *btree[K, V]) VerifShape[K, V] {
+	out := VerifShape[K, V]{Size: t.size, Gen: t.gen}
+	ids := map[*node[K, V]]int{}
+	var parents []*node[K, V]
+	var walk func(x *node[K, V], depth int)
+	walk = func(x *node[K, V], depth int) {
+		if len(out.Nodes) >= VerifMaxNodes {
+			out.Truncated = true
+			return
+		}
+		id := len(out.Nodes)
+		ids[x] = id
+		vn := VerifNode[K, V]{
+			Ref:      x,
+			ID:       id,
+			N:        int(x.n),
+			Keys:     append([]K(nil), x.keys[:]...),
+			Values:   append([]V(nil), x.values[:]...),
+			Children: make([]int, len(x.children)),
+			Depth:    depth,
+		}
+		out.Nodes = append(out.Nodes, vn)
+		parents = append(parents, x.parent)
+		for i, c := range x.children {
+			switch {
+			case c == nil:
+				out.Nodes[id].Children[i] = -1
+			default:
+				if _, seen := ids[c]; seen {
+					out.Nodes[id].Children[i] = -2
+					continue
+				}
+				if len(out.Nodes) >= VerifMaxNodes {
+					out.Truncated = true
+					out.Nodes[id].Children[i] = -2
+					continue
+				}
+				out.Nodes[id].Children[i] = len(out.Nodes)
+				walk(c, depth+1)
+			}
+		}
+	}
+	if t.root != nil {
+		walk(t.root, 0)
+	}
+	for i, p := range parents {
+		switch {
+		case p == nil:
+			out.Nodes[i].Parent = -1
+		default:
+			if id, ok := ids[p]; ok {
+				out.Nodes[i].Parent = id
+			} else {
+				out.Nodes[i].Parent = -2
+			}
+		}
+	}
+	return out
+}
+
+// VerifShape walks the map's tree (read-only).
+func (m Map[K, V]) VerifShape() VerifShape[K, V] { return verifShape(m.t) }
+
+// VerifShape walks the set's tree (read-only).
+func (s Set[T]) VerifShape() VerifShape[T, struct{}] { return verifShape(s.t) }
